@@ -90,6 +90,10 @@ Proof. vm_compute. reflexivity. Qed.
 Theorem html_sinks_escaped : all_dsdl_text_sinks_escaped = true.
 Proof. vm_compute. reflexivity. Qed.
 
+(* the recursion / inlining structure of the real templates is the one the hand-mirrored emitter has *)
+Theorem html_inlining_structure : html_call_guards = expected_call_guards.
+Proof. vm_compute. reflexivity. Qed.
+
 (* pages: every expansion of an entry template (Namespace.j2, StructureType.j2, ...) is balanced; rendered to characters and
    scanned it is a well-formed token stream as soon as the inserted values cannot open markup *)
 Theorem html_page_wf key s ps :
